@@ -448,6 +448,10 @@ func (env *specEnv) resolveModifies(mk string) (ts []modTarget, ok bool) {
 		}
 		return nil, false
 	}
+	if mk == "allbitmaps" {
+		// the set view of every roaring bitmap (ghost state)
+		return []modTarget{{u.roaringKey(), ""}}, true
+	}
 	if strings.HasPrefix(mk, "bitmap(") && strings.HasSuffix(mk, ")") {
 		inner := strings.TrimSuffix(strings.TrimPrefix(mk, "bitmap("), ")")
 		if e, err := ParseSpec(inner); err == nil {
